@@ -8,6 +8,12 @@
 Instance: {"height", "width", "problem"[y][x]}: -1 nothing given, >= 0 given number.
 Answer keys (fixed order): nums[y][x] row-major (the number of a numbered cell; 0 for an empty cell - the module's
 reporting convention for cells without a number), then has_number[y][x] row-major (bool).
+
+Large family (shape ("large", h, w)): boards of 16 .. 36 cells and lines of 12+ cells (numbers of two digits).  grids()
+walks all 2^(h*w) sets of numbered cells; fills() places the rows one after the other and drops a partial board as soon
+as (a) a group of numbered cells is closed off from the rows still to come while another group exists, (b) a given number
+can no longer be met (the view of a cell only grows while the rows below it stay empty), (c) two neighbours whose views
+are closed hold the same number.  selftest() compares fills() with grids() + filter.
 """
 
 from . import base
@@ -49,6 +55,264 @@ def grids(h, w):
     return out
 
 
+# ---- large boards: row-by-row search --------------------------------------------------------------
+_FILLS = {}
+
+
+def fills(h, w, prob, first=None):
+    """All legal fillings that keep the given numbers, as (nums tuple, has tuple), sorted.
+    first=k: only the first k fillings met by the search with the fullest rows tried first (a source of well-filled
+    boards for the dense instances; never used to judge an instance)."""
+    key = (h, w, tuple(tuple(r) for r in prob), first)
+    if key in _FILLS:
+        return _FILLS[key]
+    if w > h:
+        # the rules are the same read by columns: search the transposed board (its rows are the short lines)
+        tp = [[prob[y][x] for y in range(h)] for x in range(w)]
+        out = []
+        for nums, has in fills(w, h, tp, first):
+            out.append((tuple(nums[x * h + y] for y in range(h) for x in range(w)), tuple(has[x * h + y] for y in range(h) for x in range(w))))
+        if first is None:
+            out.sort()
+        _FILLS[key] = out
+        return out
+    given = [y for y in range(h) for x in range(w) if prob[y][x] >= 0]
+    if given and 2 * sum(given) > (h - 1) * len(given):
+        # ... and the same read from the bottom: the search wants the given numbers in the rows it places first
+        out = []
+        for nums, has in fills(h, w, prob[::-1], first):
+            out.append((tuple(nums[(h - 1 - y) * w + x] for y in range(h) for x in range(w)), tuple(has[(h - 1 - y) * w + x] for y in range(h) for x in range(w))))
+        if first is None:
+            out.sort()
+        _FILLS[key] = out
+        return out
+    rowpats = []
+    for y in range(h):
+        need = [x for x in range(w) if prob[y][x] >= 0]
+        pats = []
+        for m in range(1 << w):
+            pat = tuple(bool(m >> x & 1) for x in range(w))
+            if all(pat[x] for x in need):
+                pats.append(pat)
+        if first is not None:
+            pats.sort(key=lambda pat: (-sum(pat), pat))
+        rowpats.append(pats)
+    out = []
+    rows = []
+
+    def check(y):
+        """rows 0..y are placed; returns False if no completion can be legal, else the numbers seen so far."""
+        last = y == h - 1
+        # (a) groups of numbered cells
+        comp = {}
+        ncomp = 0
+        touching = set()
+        for yy in range(y + 1):
+            for xx in range(w):
+                if rows[yy][xx] and (yy, xx) not in comp:
+                    comp[(yy, xx)] = ncomp
+                    stack = [(yy, xx)]
+                    while stack:
+                        cy, cx = stack.pop()
+                        if cy == y:
+                            touching.add(ncomp)
+                        for dy, dx in ((0, 1), (1, 0), (0, -1), (-1, 0)):
+                            ny, nx = cy + dy, cx + dx
+                            if 0 <= ny <= y and 0 <= nx < w and rows[ny][nx] and (ny, nx) not in comp:
+                                comp[(ny, nx)] = ncomp
+                                stack.append((ny, nx))
+                    ncomp += 1
+        if ncomp > 1 and (last or len(touching) < ncomp):
+            return False
+        # (b), (c) numbers
+        low = {}
+        closed = {}
+        for (cy, cx) in comp:
+            seen = 0
+            for dy, dx in ((0, 1), (0, -1), (-1, 0)):
+                ny, nx = cy + dy, cx + dx
+                while 0 <= ny and 0 <= nx < w and not rows[ny][nx]:
+                    seen += 1
+                    ny += dy
+                    nx += dx
+            ny = cy + 1
+            while ny <= y and not rows[ny][cx]:
+                seen += 1
+                ny += 1
+            cl = ny <= y or last
+            low[(cy, cx)] = seen
+            closed[(cy, cx)] = cl
+            want = prob[cy][cx]
+            if want >= 0 and (seen > want or (seen if cl else seen + h - 1 - y) < want):
+                return False
+        for (cy, cx) in comp:
+            if closed[(cy, cx)]:
+                for nb in ((cy, cx + 1), (cy + 1, cx)):
+                    if nb in comp and closed[nb] and low[nb] == low[(cy, cx)]:
+                        return False
+        return low
+
+    def rec(y):
+        for pat in rowpats[y]:
+            if first is not None and len(out) >= first:
+                return
+            rows.append(pat)
+            low = check(y)
+            if low is not False:
+                if y == h - 1:
+                    has = tuple(b for r in rows for b in r)
+                    nums = tuple(low.get((i // w, i % w), 0) for i in range(h * w))
+                    out.append((nums, has))
+                else:
+                    rec(y + 1)
+            rows.pop()
+
+    rec(0)
+    if first is None:
+        out.sort()
+    _FILLS[key] = out
+    return out
+
+
+def legal(h, w, nums, has):
+    """Direct transcription of the rules for one filling (used by selftest on the boards too large to list)."""
+    numbered = [(i // w, i % w) for i in range(h * w) if has[i]]
+    if not base.cells_connected(numbered):
+        return False
+    for i in range(h * w):
+        y, x = i // w, i % w
+        if not has[i]:
+            if nums[i] != 0:
+                return False
+            continue
+        seen = 0
+        for dy, dx in ((0, 1), (1, 0), (0, -1), (-1, 0)):
+            yy, xx = y + dy, x + dx
+            while 0 <= yy < h and 0 <= xx < w and not has[yy * w + xx]:
+                seen += 1
+                yy += dy
+                xx += dx
+        if seen != nums[i]:
+            return False
+        if x + 1 < w and has[i + 1] and nums[i + 1] == nums[i]:
+            return False
+        if y + 1 < h and has[i + w] and nums[i + w] == nums[i]:
+            return False
+    return True
+
+
+LARGE_QUICK = [(4, 5), (5, 4), (2, 10), (10, 2), (1, 12), (12, 1), (5, 5)]
+LARGE_THOROUGH = [(4, 4), (3, 6), (6, 3), (3, 7), (7, 3), (2, 12), (12, 2), (1, 15), (15, 1), (4, 6), (6, 4), (6, 6), (7, 7)]
+
+
+def _picks(n, count):
+    if n <= count:
+        return list(range(n))
+    return sorted(set(round(i * (n - 1) / (count - 1)) for i in range(count)))
+
+
+def _dense_variants(h, w, nums, has, rich):
+    cells = [i for i in range(h * w) if has[i]]
+    m = len(cells)
+
+    def build(blank=None, change=None):
+        g = [-1] * (h * w)
+        for j, i in enumerate(cells):
+            if not (blank and j % blank[0] == blank[1]):
+                g[i] = nums[i]
+        if change:
+            i = cells[change[0] % m]
+            g[i] = nums[i] + (change[1] if nums[i] + change[1] >= 0 else 1)
+        return base.grid(g, h, w)
+
+    if m == 0:
+        return []
+    out = [build()]
+    for b in ([(2, 0), (2, 1), (3, 0), (3, 2), (4, 1)] if rich else [(2, 1)]):
+        out.append(build(blank=b))
+    spots = [(0, 1), (m - 1, -1), (m // 2, 1)]
+    if rich:
+        spots += [(0, -1), (m - 1, 1), (m // 2, -1), (m // 4, 1), (3 * m // 4, -1), (1, 1), (m - 2, -1)]
+    for c in spots:
+        out.append(build(change=c))
+    for c in ([(1, 1), (m - 2, -1), (m // 2 | 1, -1)] if rich else [(m // 2 | 1, -1)]):
+        out.append(build(blank=(2, 0), change=c))
+    return out
+
+
+def large_instances(h, w, rich):
+    seen = set()
+    for g in _large_grids(h, w, rich):
+        key = repr(g)
+        if key not in seen:
+            seen.add(key)
+            yield {"height": h, "width": w, "problem": g}
+
+
+def _large_grids(h, w, rich):
+    def single(y, x, v):
+        g = [[-1] * w for _ in range(h)]
+        if v is not None:
+            g[y][x] = v
+        return g
+
+    if h * w <= 21 or min(h, w) <= 2:
+        yield single(0, 0, None)  # clue-free (the larger boards have too many fillings to list)
+    # one number in the far corner / on the last row / last column: the largest view (h-1)+(w-1), one more, and the ends
+    # of the module's number range h+w
+    top = h + w - 2
+    vals = [top, top + 1] + ([top - 1, h + w, h + w + 1, 10, 11] if rich else [h + w + 1])
+    if h * w > 36:
+        vals = []  # 7x7 with a single large number: the module does not answer within minutes; dense instances only
+    for v in vals:
+        yield single(h - 1, w - 1, v)
+    listable = h * w <= 21 or min(h, w) <= 2
+    if vals:
+        yield single(0, 0, top)
+    if rich and vals:
+        yield single(h - 1, 0, top)
+        yield single(0, w - 1, top)
+        if listable:
+            yield single(h - 1, w // 2, top - 1)
+            yield single(h // 2, w - 1, top - 1)
+    empty = [[-1] * w for _ in range(h)]
+    if listable:
+        sols = fills(h, w, empty)
+        sols = [s for s in sols if sum(s[1]) >= 3] or sols
+        idx = _picks(len(sols), 8 if rich else 4)[1:-1]
+        if not rich:
+            idx = idx[:1] if h * w > 12 else idx
+    else:
+        sols = fills(h, w, empty, first=120)
+        idx = _picks(len(sols), 4 if rich else 2)
+        if not rich:
+            idx = idx[:1]
+    for i in idx:
+        for g in _dense_variants(h, w, sols[i][0], sols[i][1], rich):
+            yield g
+
+
+def selftest():
+    """fills() == grids() + filter of the given numbers: clue-free and with one or two clues, boards up to 4x4, both
+    orientations (the wide boards go through the transposition); every filling of larger boards obeys legal()."""
+    rule = View()
+    cases = 0
+    for h, w in [(1, 1), (1, 2), (2, 1), (1, 3), (3, 1), (2, 2), (2, 3), (3, 2), (3, 3), (1, 4), (4, 1), (2, 4), (4, 2), (1, 5), (5, 1), (3, 4), (4, 3), (4, 4)]:
+        for k, p in enumerate(rule.instances((h, w), 12000)):
+            if h * w >= 12 and k % 5:
+                continue
+            a = sorted(rule._readings_small(p))
+            b = sorted(n + s for n, s in fills(h, w, p["problem"]))
+            assert a == b, (p, len(a), len(b))
+            cases += 1
+    for h, w in [(4, 5), (5, 4), (2, 10), (3, 6)]:
+        for nums, has in fills(h, w, [[-1] * w for _ in range(h)]):
+            assert legal(h, w, nums, has)
+    for nums, has in fills(6, 6, [[-1] * 6 for _ in range(6)], first=50):
+        assert legal(6, 6, nums, has)
+    return cases
+
+
 class View(base.Rule):
     name = "view"
 
@@ -56,9 +320,16 @@ class View(base.Rule):
         s = [(1, 1), (1, 2), (2, 1), (1, 3), (3, 1), (2, 2), (2, 3), (3, 2), (3, 3), (1, 4), (4, 1), (2, 4), (4, 2)]
         if tier != "quick":
             s += [(1, 5), (5, 1), (3, 4), (4, 3), (4, 4)]
+        s += [("large", h, w) for h, w in LARGE_QUICK]
+        if tier != "quick":
+            s += [("large", h, w) for h, w in LARGE_THOROUGH]
         return s
 
     def instances(self, shape, cap):
+        if shape[0] == "large":
+            for p in large_instances(shape[1], shape[2], cap > 1000):
+                yield p
+            return
         h, w = shape
         alphabet = [0, 1, 2, 3] if cap <= 1000 else [0, 1, 2, 3, 4, 5]
         lays, k = base.layouts(h * w, -1, alphabet, cap if h * w < 16 else cap // 4)  # 4x4: ~0.3 s per solve, single clues only
@@ -73,12 +344,18 @@ class View(base.Rule):
 
     def readings(self, p):
         h, w, prob = p["height"], p["width"], p["problem"]
+        if h * w > 16 or max(h, w) > 5:
+            return [[n + s for n, s in fills(h, w, prob)]]
+        return [self._readings_small(p)]
+
+    def _readings_small(self, p):
+        h, w, prob = p["height"], p["width"], p["problem"]
         given = [(y * w + x, prob[y][x]) for y in range(h) for x in range(w) if prob[y][x] >= 0]
         out = []
         for nums, has in grids(h, w):
             if all(has[i] and nums[i] == v for i, v in given):
                 out.append(nums + has)
-        return [out]
+        return out
 
     def example(self):
         prob = [
